@@ -24,7 +24,7 @@ import (
 	"verif/internal/model"
 )
 
-const rule = "cases: (published, offset) over boundaries {0,1,2^31-1,2^31,2^32-1} x {0,1,65535} (all 15 pairs every run) and uniform u32 x u16, carried by LeaseSet2, MetaLeaseSet and EncryptedLeaseSet encodings; Lease end dates (ms) below 2^63 incl. 9223372036854/5 (the UnixNano limit); Lease2 seconds over u32 and constructor times outside [0,2^32-1] (negative, 2^32, year 2262+, sub-second fractions, +-2^k +- delta up to the int64 limits, and second counts whose product with 10^3, 10^6 or 10^9 wraps modulo 2^64 into the 32-bit range); offline expiry u32; LeaseSets of 1..16 leases with arbitrary, repeated and boundary dates in random order; expiry one day before / after the start of the run for seven structure kinds, and any absolute 32-bit expiry at least a day away from now (uniform, and the landmarks 2^31, 2^32-1, now +- 2^31). Oracle: math/big - ExpirationTime().Unix() = published+offset (up to 2^32+65534, no wrap), exact second<->millisecond conversions (Lease / Date accessors, NewLease, DateFromTime, NewDateFromMillis, NewDateFromUnix over the whole range below 2^63 ms), NewLease2 rejects out-of-range instead of wrapping, Newest/OldestExpiration are members of the leases and bound all others, IsExpired true at now-86400 s and false at now+86400 s. Non-trivial: published+offset crosses 2^31 or 2^32, a date beyond 2^31 s, or a lease set with >= 2 distinct dates; distinct by field values."
+const rule = "cases: (published, offset) over boundaries {0,1,2^31-1,2^31,2^32-1} x {0,1,65535} (all 15 pairs every run) and uniform u32 x u16, carried by LeaseSet2, MetaLeaseSet and EncryptedLeaseSet encodings, half of them with an offline block whose transient key expires before, at or after the structure does; Lease end dates (ms) below 2^63 incl. 9223372036854/5 (the UnixNano limit); Lease2 seconds over u32 and constructor times outside [0,2^32-1] (negative, 2^32, year 2262+, sub-second fractions, +-2^k +- delta up to the int64 limits, and second counts whose product with 10^3, 10^6 or 10^9 wraps modulo 2^64 into the 32-bit range); offline expiry u32; LeaseSets of 1..16 leases with arbitrary, repeated and boundary dates in random order; expiry one day before / after the start of the run for seven structure kinds, and any absolute 32-bit expiry at least a day away from now (uniform, and the landmarks 2^31, 2^32-1, now +- 2^31). Times handed to constructors are expressed in UTC and three other locations. Oracle: math/big - ExpirationTime().Unix() = published+offset (up to 2^32+65534, no wrap), exact second<->millisecond conversions (Lease / Date accessors, NewLease, DateFromTime, NewDateFromMillis, NewDateFromUnix over the whole range below 2^63 ms), NewLease2 rejects out-of-range instead of wrapping, Newest/OldestExpiration are members of the leases and bound all others, IsExpired true at now-86400 s and false at now+86400 s. Non-trivial: published+offset crosses 2^31 or 2^32, a date beyond 2^31 s, or a lease set with >= 2 distinct dates; distinct by field values."
 
 var now time.Time
 
@@ -42,25 +42,30 @@ type Case struct {
 	Nanos     int64    `json:"nanos,omitempty"`
 	Dates     []uint64 `json:"dates,omitempty"`
 	Delta     int64    `json:"delta,omitempty"` // expired: seconds relative to the start of the run
+	Off       uint32   `json:"offline_expires,omitempty"` // header: the structures carry an offline block whose transient key expires then (0: no block)
 	At        uint32   `json:"at,omitempty"`    // expired: absolute expiry (seconds) instead of Delta; skipped when within a day of now
 }
 
-func headerBytes(kind string, published uint32, offset uint16) []byte {
+func headerBytes(kind string, published uint32, offset uint16, off ...uint32) []byte {
+	var ob *gen.OfflineSpec
+	if len(off) > 0 && off[0] != 0 {
+		ob = &gen.OfflineSpec{Expires: off[0], TType: 7, Seed: 5}
+	}
 	dest := gen.IdentSpec{SigType: 7, EncType: 4, KeySeed: 3, PadSeed: 4}
 	switch kind {
 	case "ls2":
-		s := gen.LS2Spec{Header: gen.HeaderSpec{Dest: dest, Published: published, Expires: offset}, Keys: []gen.KeySpec{{Type: 4, Len: -1, Seed: 1}}, Leases: []gen.Lease2Spec{{Seed: 1, Tunnel: 1, End: 5}}}
+		s := gen.LS2Spec{Header: gen.HeaderSpec{Dest: dest, Published: published, Expires: offset, Offline: ob}, Keys: []gen.KeySpec{{Type: 4, Len: -1, Seed: 1}}, Leases: []gen.Lease2Spec{{Seed: 1, Tunnel: 1, End: 5}}}
 		m, _, _ := s.Build()
 		return m.Encode()
 	case "meta":
-		s := gen.MetaSpec{Header: gen.HeaderSpec{Dest: dest, Published: published, Expires: offset}, Entries: []gen.MetaEntrySpec{{Seed: 1, Type: 3, Expires: published, Cost: 1}}}
+		s := gen.MetaSpec{Header: gen.HeaderSpec{Dest: dest, Published: published, Expires: offset, Offline: ob}, Entries: []gen.MetaEntrySpec{{Seed: 1, Type: 3, Expires: published, Cost: 1}}}
 		m, _, _ := s.Build()
 		return m.Encode()
 	}
 	if offset == 0 {
 		offset = 1 // the library documents expires >= 1 for EncryptedLeaseSet
 	}
-	s := gen.ELSSpec{SigType: 11, KeySeed: 2, Published: published, Expires: offset, InnerLen: 61, InnerSeed: 1}
+	s := gen.ELSSpec{SigType: 11, KeySeed: 2, Published: published, Expires: offset, InnerLen: 61, InnerSeed: 1, Offline: ob}
 	m, _, _ := s.Build()
 	return m.Encode()
 }
@@ -75,12 +80,12 @@ func checkHeader(c Case, r *ev.Rec) error {
 		offset    uint16
 	}
 	var hs []hv
-	ls, _, err := lease_set2.ReadLeaseSet2(headerBytes("ls2", c.Published, c.Offset))
+	ls, _, err := lease_set2.ReadLeaseSet2(headerBytes("ls2", c.Published, c.Offset, c.Off))
 	if err != nil {
 		return fmt.Errorf("ReadLeaseSet2: %v", err)
 	}
 	hs = append(hs, hv{"LeaseSet2", ls.PublishedTime(), ls.ExpirationTime(), ls.Published(), ls.Expires(), c.Offset})
-	ml, _, err := meta_leaseset.ReadMetaLeaseSet(headerBytes("meta", c.Published, c.Offset))
+	ml, _, err := meta_leaseset.ReadMetaLeaseSet(headerBytes("meta", c.Published, c.Offset, c.Off))
 	if err != nil {
 		return fmt.Errorf("ReadMetaLeaseSet: %v", err)
 	}
@@ -92,7 +97,7 @@ func checkHeader(c Case, r *ev.Rec) error {
 	if eo == 0 {
 		eo = 1
 	}
-	el, _, err := encrypted_leaseset.ReadEncryptedLeaseSet(headerBytes("els", c.Published, c.Offset))
+	el, _, err := encrypted_leaseset.ReadEncryptedLeaseSet(headerBytes("els", c.Published, c.Offset, c.Off))
 	if err != nil {
 		return fmt.Errorf("ReadEncryptedLeaseSet: %v", err)
 	}
@@ -122,6 +127,20 @@ func checkHeader(c Case, r *ev.Rec) error {
 	return nil
 }
 
+// zoneFor: the location a time.Time is expressed in is presentation; constructors
+// must store the instant. Three of four cases use a location other than UTC.
+func zoneFor(n uint64) *time.Location {
+	switch n % 4 {
+	case 1:
+		return time.FixedZone("west", -11*3600-1800)
+	case 2:
+		return time.FixedZone("east", 13*3600+2700)
+	case 3:
+		return time.FixedZone("one", 3600)
+	}
+	return time.UTC
+}
+
 func checkLease(c Case, r *ev.Rec) error {
 	ml := model.Lease{Tunnel: 7, EndMs: c.Ms}
 	copy(ml.GW[:], model.Fill(32, 5))
@@ -140,11 +159,11 @@ func checkLease(c Case, r *ev.Rec) error {
 		if got := d.Time().UnixMilli(); got != int64(c.Ms) {
 			return fmt.Errorf("Lease.Date().Time().UnixMilli() = %d for %d ms", got, c.Ms)
 		}
-		nl, err := lease.NewLease(data.Hash(ml.GW), 7, time.UnixMilli(int64(c.Ms)))
+		nl, err := lease.NewLease(data.Hash(ml.GW), 7, time.UnixMilli(int64(c.Ms)).In(zoneFor(c.Ms)))
 		if err != nil || !bytes.Equal(nl.Bytes(), ml.Encode()) {
 			return fmt.Errorf("NewLease(UnixMilli(%d)) = %x (%v): end date is not exact", c.Ms, nl.Bytes()[36:], err)
 		}
-		dd, err := data.DateFromTime(l.Time())
+		dd, err := data.DateFromTime(l.Time().In(zoneFor(c.Ms + 1)))
 		if err != nil || !bytes.Equal(dd.Bytes(), model.U64(c.Ms)) {
 			return fmt.Errorf("DateFromTime(Lease.Time()) = %x for %d ms", dd.Bytes(), c.Ms)
 		}
@@ -172,7 +191,7 @@ func checkLease(c Case, r *ev.Rec) error {
 }
 
 func checkLease2(c Case, r *ev.Rec) error {
-	t := time.Unix(c.Secs, c.Nanos)
+	t := time.Unix(c.Secs, c.Nanos).In(zoneFor(uint64(c.Secs)))
 	inRange := t.Unix() >= 0 && t.Unix() <= math.MaxUint32
 	var gw data.Hash
 	copy(gw[:], model.Fill(32, 6))
@@ -389,6 +408,16 @@ func genCase(t *rapid.T) Case {
 		}
 		if rapid.IntRange(0, 3).Draw(t, "near") == 0 {
 			c.Published = uint32(int64(rapid.SampledFrom([]int64{1 << 31, 1<<32 - 1}).Draw(t, "edge")) - int64(rapid.IntRange(0, 70000).Draw(t, "below")))
+		}
+		// an offline block whose transient key expires before, at or after the structure does:
+		// the structure's own expiry is published + offset regardless
+		switch rapid.IntRange(0, 5).Draw(t, "offline") {
+		case 0:
+			c.Off = rapid.SampledFrom([]uint32{1, 1<<31 - 1, 1<<32 - 1}).Draw(t, "offexp")
+		case 1:
+			c.Off = c.Published + uint32(c.Offset)/2 + 1
+		case 2:
+			c.Off = rapid.Uint32Range(1, 1<<32-1).Draw(t, "offexp2")
 		}
 	case "lease":
 		if rapid.Bool().Draw(t, "b") {
